@@ -18,8 +18,9 @@ pub enum Then {
     Close,
     /// bytes that cannot continue a valid handshake
     Garbage,
-    /// a COMPLETE greeting + READY that is well-formed but must be refused (`offset % 4`: 0 =
-    /// unknown Socket-Type, 1 = ZMTP version 2.1, 2 = unknown mechanism, 3 = 256-byte identity)
+    /// a COMPLETE greeting + READY that is well-formed but must be refused (`offset % 6`: 0 =
+    /// unknown Socket-Type, 1 = ZMTP version 2.1, 2 = unknown mechanism, 3 = 256-byte identity,
+    /// 4 / 5 = an intact Socket-Type property followed by garbage inside the READY frame)
     Invalid,
     /// a complete, valid greeting and then, where READY is due, the 9-byte header of a command
     /// frame declaring 2^50 (even offset) or 2^63 + 1 (odd offset) bytes - and nothing more: a
@@ -230,14 +231,29 @@ pub fn stall_outcome(c: &StallCase) -> Outcome {
                         let mut g = refcodec::RefGreeting::valid_null();
                         let mut ty = peer_type.to_string();
                         let mut identity: Option<Vec<u8>> = None;
-                        match st.offset % 4 {
+                        let mut tail: Vec<u8> = vec![];
+                        match st.offset % 6 {
                             0 => ty = "BOGUS".into(),
                             1 => g.version = (2, 1),
                             2 => g.mechanism = b"GSSAPI".to_vec(),
-                            _ => identity = Some(vec![b'i'; 256]),
+                            3 => identity = Some(vec![b'i'; 256]),
+                            // an intact Socket-Type property, then garbage inside the READY frame
+                            4 => tail = vec![0xFF; 7],
+                            _ => tail = vec![3, b'a', b'b'],
                         }
                         let mut bytes = g.encode();
-                        bytes.extend_from_slice(&refcodec::encode_ready(&ty, identity.as_deref()));
+                        if tail.is_empty() {
+                            bytes.extend_from_slice(&refcodec::encode_ready(&ty, identity.as_deref()));
+                        } else {
+                            let mut body = vec![5u8];
+                            body.extend_from_slice(b"READY");
+                            body.push(11);
+                            body.extend_from_slice(b"Socket-Type");
+                            body.extend_from_slice(&(ty.len() as u32).to_be_bytes());
+                            body.extend_from_slice(ty.as_bytes());
+                            body.extend_from_slice(&tail);
+                            refcodec::encode_frame(&mut bytes, &body, false, true);
+                        }
                         let _ = rc.write(&bytes).await;
                         want_failed += 1;
                     }
@@ -382,7 +398,7 @@ pub fn run(ctx: &Ctx) -> (Report, PropertyMeta) {
                 }
                 cases.push(StallCase { kind: *kind, transport, stallers: vec![Staller { offset: *o, then: Then::Garbage }] });
             }
-            for v in 0..4 {
+            for v in 0..6 {
                 cases.push(StallCase { kind: *kind, transport, stallers: vec![Staller { offset: v, then: Then::Invalid }] });
             }
             for v in 0..2 {
